@@ -68,9 +68,23 @@ def build(args):
         parts = [spell[ln["r"]]] + ds[i] + (["PHOTOS"] if ln["ph"] else []) + [models[i]] + params[i]
         text += "  " + " ".join(parts) + ";\n"
     text += "Enddecay\n"
+    # every sixth table is printed through its charge conjugate (a table made by CDecay is a table like any other):
+    # expected rows are those of the conjugate table as list_decay_modes reports it (C03 / C04 judge that)
+    mbar = None
+    if pdg and cid % 2 == 0:
+        from decaylanguage.utils.particleutils import charge_conjugate_name
+        cand = charge_conjugate_name(mother)
+        if cand != mother and not cand.startswith("ChargeConj") and decio.label_ok(cand):
+            mbar = cand
+            text += f"CDecay {mbar}\n"
     p, err, _ = decio.parse_text(text)
     if p is None:
         raise Machinery(f"generated table does not parse: {err!r}\n{text}")
+    if mbar:
+        cds = p.list_decay_modes(mbar) if mbar in p.list_decay_mother_names() else []
+        ds = cds if len(cds) == n else [["?no-conjugate-table"]] * n
+        mother = mother_arg = mbar
+        pdg = False
 
     def snapshot():
         return json.dumps([p.list_decay_mother_names(), p.list_decay_modes(mother),
